@@ -26,6 +26,8 @@ const (
 	idKeyPath      = "C20-keypath-x-prefix"
 	idChainInfo    = "C20-blockchaininfo-refused" // honest BlockchainInfo refused: only the lowest returned height is verified first
 	idLastCommit   = "C20-block-lastcommit-unbound" // LastCommitHash covers the signatures only: height/round/block id of Block.LastCommit are relayed unchecked
+	idEmptyRoot    = "C20-query-empty-apphash-any-value" // against an empty trusted app hash an uncomputable proof root (nil) "matches": any forged key/value is relayed
+	idBlockSearch  = "C20-blocksearch-unverified" // BlockSearch relays blocks without verifying them
 	idLatestNil    = "C20-latest-nil-deref" // Commit/Validators without a height panic when the light client is already at the tip
 )
 
@@ -96,7 +98,7 @@ func ip(i int) *int { return &i }
 
 func TestHonest(t *testing.T) {
 	rapid.Check(t, func(t *rapid.T) {
-		w := genWorld(t, maxHeights())
+		w := genWorld(t, maxHeights(), 0, 0, 1, 2)
 		defer w.close()
 		li := newLiar(w.core)
 		r := &honestRun{t: t, w: w, liar: li, world: w.classes()}
@@ -247,7 +249,10 @@ func TestHonest(t *testing.T) {
 		if err == nil {
 			inc = w.consistentBlock(got)
 		}
-		r.expect("Block", "latest", got, err, want, werr, "", inc)
+		if err == nil && inc == nil && got.Block.Height != w.nodeTip {
+			inc = bad("height", "latest block of the node is %d, relayed %d", w.nodeTip, got.Block.Height)
+		}
+		r.expect("Block", fmt.Sprintf("latest,node-lag=%d", w.tip-w.nodeTip), got, err, want, werr, "", inc)
 
 		// Commit / Validators without a height: the latest verified block, whether or not the light client had to move
 		for _, m := range []string{"Commit", "Validators"} {
@@ -291,15 +296,25 @@ func TestHonest(t *testing.T) {
 
 		// ConsensusParams without a height: the full node answers for tip+1, whose header does not exist yet, so the
 		// answer cannot be verified at that moment. Measured, not judged (see assumptions).
-		if _, err := c.ConsensusParams(bg, nil); err != nil {
+		// When the node is behind the providers (or the chain has grown since it answered) that header exists and the
+		// answer must be relayed.
+		gpl, err := c.ConsensusParams(bg, nil)
+		if w.nodeTip < w.tip {
+			wpl, werr := core.ConsensusParams(bg, nil)
+			inc = nil
+			if err == nil {
+				inc = w.consistentParams(gpl)
+			}
+			r.expect("ConsensusParams", "latest,node-behind", gpl, err, wpl, werr, "", inc)
+		} else if err != nil {
 			lib.Class("TestHonest", "unjudged:ConsensusParams(latest=tip+1):refused")
 		} else {
 			lib.Class("TestHonest", "unjudged:ConsensusParams(latest=tip+1):relayed")
 		}
 
-		if w.tip-1 >= w.init {
+		if w.nodeTip-1 >= w.init {
 			gr, err := c.BlockResults(bg, nil) // documented: results of the block before the latest
-			hh := w.tip - 1
+			hh := w.nodeTip - 1
 			wr, werr := core.BlockResults(bg, &hh)
 			inc = nil
 			if err == nil {
@@ -310,8 +325,8 @@ func TestHonest(t *testing.T) {
 
 		// BlockchainInfo over drawn ranges
 		for i := 0; i < 3; i++ {
-			max := rapid.SampledFrom([]int64{0, w.tip, w.tip + 2, rapid.Int64Range(w.init, w.tip).Draw(t, "bimaxh")}).Draw(t, "bimax")
-			min := rapid.SampledFrom([]int64{0, w.init, rapid.Int64Range(w.init, w.tip).Draw(t, "biminh")}).Draw(t, "bimin")
+			max := rapid.SampledFrom([]int64{0, w.nodeTip, w.nodeTip + 2, rapid.Int64Range(w.init, w.nodeTip).Draw(t, "bimaxh")}).Draw(t, "bimax")
+			min := rapid.SampledFrom([]int64{0, w.init, rapid.Int64Range(w.init, w.nodeTip).Draw(t, "biminh")}).Draw(t, "bimin")
 			c := w.drawVerifier(t, li, "vbi")
 			gb, err := c.BlockchainInfo(bg, min, max)
 			wb, werr := core.BlockchainInfo(bg, min, max)
@@ -320,6 +335,28 @@ func TestHonest(t *testing.T) {
 				inc = w.consistentMetas(gb)
 			}
 			r.expect("BlockchainInfo", fmt.Sprintf("min0=%v,max0=%v,n=%d", min == 0, max == 0, lenMetas(wb)), gb, err, wb, werr, idChainInfo, inc)
+		}
+
+		// BlockSearch: every returned block must be the chain's
+		for _, q := range []string{"block.height>0", fmt.Sprintf("block.height<=%d", w.nodeTip)} {
+			c := w.drawVerifier(t, li, "vbs")
+			order := rapid.SampledFrom([]string{"asc", "desc", ""}).Draw(t, "bsorder")
+			perPage := rapid.SampledFrom([]int{2, 5, 30}).Draw(t, "bsperpage")
+			gbs, err := c.BlockSearch(bg, q, nil, ip(perPage), order)
+			wbs, werr := core.BlockSearch(bg, q, nil, ip(perPage), order)
+			inc = nil
+			if err == nil {
+				for _, rb := range gbs.Blocks {
+					if i := w.consistentBlock(rb); i != nil {
+						inc = i
+					}
+				}
+			}
+			n := -1
+			if wbs != nil {
+				n = len(wbs.Blocks)
+			}
+			r.expect("BlockSearch", fmt.Sprintf("order=%s,n=%d", orderName(order), n), gbs, err, wbs, werr, "", inc)
 		}
 
 		// TxSearch with proofs: queries over several heights, every order, pages that span heights
